@@ -568,7 +568,8 @@ def replay(req):
     reproduced = None
     detail = None
     if name.startswith("no-ZeroDivisionError") or name.startswith("no-None") or name.startswith("sqrt-domain") \
-            or name.startswith("index-in-range") or name.startswith("assert@") or name.startswith("no-raise:"):
+            or name.startswith("index-in-range") or name.startswith("assert@") or name.startswith("no-raise:") \
+            or name.startswith("no-raise"):
         reproduced = f.exc is not None
         detail = "implicit obligation: real code raised %s" % f.exc if reproduced else "no exception natively"
     elif name.startswith("must-raise:"):
